@@ -9,6 +9,7 @@ import (
 
 	"verifharness/drv/c19"
 	"verifharness/drv/c20"
+	"verifharness/drv/wire"
 )
 
 func atoi(s string) int {
@@ -30,6 +31,10 @@ func main() {
 		c19.Run(os.Args[2])
 	case "c20":
 		c20.Run(os.Args[2])
+	case "c01":
+		wire.RunC01(os.Args[2])
+	case "c02":
+		wire.RunC02(os.Args[2])
 	case "c19x":
 		a := os.Args
 		c19.Explicit(a[2], a[3], atoi(a[4]), atoi(a[5]), atoi(a[6]), a[7] == "1")
